@@ -91,11 +91,11 @@ CHECKS = {
         "mc": [MC_FILTERSYNC],
         "drivers": [{"name": "filtersync-crash", "driver": "filtersync", "args": ["mode=crash"], "trace_module": "Trace_FilterSync",
                      "n": {"quick": 1, "thorough": 6}, "procs": {"quick": 6, "thorough": 12},
-                     "tier_args": {"quick": ["maxk=45"], "thorough": ["maxk=100000"]}},
+                     "tier_args": {"quick": ["maxk=70"], "thorough": ["maxk=100000"]}},
                     # the same histories when the user does not repeat an interrupted set_scripts
                     {"name": "filtersync-crash-noretry", "driver": "filtersync", "args": ["mode=crash", "retry=0"], "trace_module": "Trace_FilterSync",
                      "n": {"quick": 1, "thorough": 4}, "procs": {"quick": 3, "thorough": 8},
-                     "tier_args": {"quick": ["maxk=45"], "thorough": ["maxk=100000"]}}],
+                     "tier_args": {"quick": ["maxk=70"], "thorough": ["maxk=100000"]}}],
         "assumptions": FS_ASSUMPTIONS + [
             "a crash is process death right before a storage write (hook in storage.rs); every individual put / delete / batch commit is assumed atomic and durable in call order (RocksDB WAL); torn files are out of scope",
             "after the crash every in-memory object is dropped and the store is reopened exactly as subcmds.rs does",
